@@ -107,15 +107,18 @@ retry:
 			}
 			// TODO: why is this necessary to ensure correct position info?
 			p.readEOF = false
-			if p.openBquotes > 0 && p.bsp < uint(len(p.bs)) &&
-				((bquotes < p.openBquotes && bquoteEscaped(p.bs[p.bsp])) ||
+			if p.openBquotes > 0 {
+				// Peek rather than look at the buffered bytes only,
+				// as the next byte may not have been read yet.
+				if nb := p.peek(); (bquotes < p.openBquotes && bquoteEscaped(nb)) ||
 					// Backquotes within double quotes also escape double quotes.
-					(bquotes < p.openBquoteDbls && p.bs[p.bsp] == '"')) {
-				// We turn backquote command substitutions into $(),
-				// so we remove the extra backslashes needed by the backquotes.
-				bquotes++
-				p.col++
-				goto retry
+					(bquotes < p.openBquoteDbls && nb == '"') {
+					// We turn backquote command substitutions into $(),
+					// so we remove the extra backslashes needed by the backquotes.
+					bquotes++
+					p.col++
+					goto retry
+				}
 			}
 		}
 		if b == '`' {
